@@ -87,36 +87,41 @@ def vval(s: bytes) -> int:
     return varacc(s, vscan(s) + 1)
 
 
-def pf_status(b: bytes) -> int:
-    """Front of a non-empty plaintext buffer: 0 = one complete frame, 1 = incomplete (wait), 2 = bad preamble."""
-    if vval(b) != 0:
-        return 2
-    b1 = b[vlen(b):]
-    if vval(b1) == -1:
-        return 1
-    b2 = b1[vlen(b1):]
-    if vval(b2) == -1:
-        return 1
-    b3 = b2[vlen(b2):]
-    if len(b3) < vval(b1):
-        return 1
-    return 0
+def pf_o1(b: bytes) -> int:
+    """Offset of the length varint (= size of the preamble varint)."""
+    return vlen(b[0:])
+
+
+def pf_o2(b: bytes) -> int:
+    """Offset of the type varint."""
+    return pf_o1(b) + vlen(b[pf_o1(b):])
 
 
 def pf_hdr(b: bytes) -> int:
-    """Header length (preamble + length varint + type varint) of the complete frame at the front of b."""
-    b1 = b[vlen(b):]
-    b2 = b1[vlen(b1):]
-    return vlen(b) + vlen(b1) + vlen(b2)
+    """Offset of the payload (= header length: preamble + length varint + type varint)."""
+    return pf_o2(b) + vlen(b[pf_o2(b):])
 
 
 def pf_len(b: bytes) -> int:
-    return vval(b[vlen(b):])
+    return vval(b[pf_o1(b):])
 
 
 def pf_type(b: bytes) -> int:
-    b1 = b[vlen(b):]
-    return vval(b1[vlen(b1):])
+    return vval(b[pf_o2(b):])
+
+
+def pf_status(b: bytes) -> int:
+    """Front of a non-empty plaintext buffer: 0 = one complete frame, 1 = incomplete (wait), 2 = bad preamble.
+    (The preamble is read as a varint and must have the value 0, as api.proto's 'a zero byte' is implemented.)"""
+    if vval(b[0:]) != 0:
+        return 2
+    if pf_len(b) == -1:
+        return 1
+    if pf_type(b) == -1:
+        return 1
+    if len(b) < pf_hdr(b) + pf_len(b):
+        return 1
+    return 0
 
 
 def pf_payload(b: bytes) -> bytes:
